@@ -119,9 +119,17 @@ func c04Exec(t *testing.T, base *world.Scenario, algo world.AlgoSpec, start int,
 		return out
 	}
 	for _, c := range rec.cycles {
-		if c.After != nil {
-			out.allReq = append(out.allReq, c.After.Pwm)
+		if c.After == nil {
+			continue
 		}
+		// the request of a cycle: what it tried to write (also when the write failed), else what the fan shows
+		req := c.After.Pwm
+		if n := len(c.Writes); n > 0 {
+			req = c.Writes[n-1].Value
+		} else if n := len(out.allReq); n > 0 && len(base.Faults)+len(sc.Faults) > 0 {
+			req = out.allReq[n-1]
+		}
+		out.allReq = append(out.allReq, req)
 	}
 	last := rec.cycles[len(rec.cycles)-1]
 	if last.After == nil {
@@ -417,6 +425,13 @@ func runC04(t *testing.T, sc *world.Scenario) *check.Result {
 				esc = sc.Clone()
 				esc.Faults = append(esc.Faults, world.FaultSpec{Op: "read", Target: "fan:" + sc.Fans[0].ID + ":pwm", Nth: r.Range(120, 200), Count: 1, Kind: "delay:" + hc.name[len("late-cycle:"):], OnlyFlags: "upd,3rd"})
 				hname = "late-cycle"
+			}
+			if ai == 1 && hname == "trajectory" && kernel.NewRand(sc.Seed, "c04.writefault").Bool(0.6) {
+				// one write (or two) of the ramping, rate-limited loop is refused by the driver (EBUSY / EIO)
+				esc = sc.Clone()
+				wr := kernel.NewRand(sc.Seed, "c04.writefault.at")
+				esc.Faults = append(esc.Faults, world.FaultSpec{Op: "write", Target: "fan:" + sc.Fans[0].ID + ":pwm", Nth: wr.Range(1, 60), Count: kernel.Pick(wr, 1, 1, 2), Kind: kernel.Pick(wr, "ebusy", "error"), OnlyFlags: "upd"})
+				hname = "trajectory+refused-write"
 			}
 			hend := hc.end
 			if hname == "late-cycle" {
